@@ -131,6 +131,11 @@ func parseConfig(s *cryptobyte.String) (ConfigSpec, error) {
 	if !ss.ReadUint8LengthPrefixed((*cryptobyte.String)(&out.PublicName)) {
 		return out, ErrDecodeError
 	}
+	// The extensions close the structure; they are not interpreted.
+	var extensions cryptobyte.String
+	if !ss.ReadUint16LengthPrefixed(&extensions) || !ss.Empty() {
+		return out, ErrDecodeError
+	}
 	return out, nil
 }
 
